@@ -307,6 +307,9 @@ func ruleC04(c *Ctx, r *Report) {
 		{"SearchAggregationOperators", "$search", "index"}, {"SearchAggregationOperators", "$searchMeta", "index"},
 		{"SearchAggregationOperators", "$vectorSearch", "index"}, {"SearchAggregationOperators", "$vectorSearch", "limit"}, {"SearchAggregationOperators", "$vectorSearch", "numCandidates"},
 		{"CoreOperators", "$binary", "subType"},
+		// the index a $listSearchIndexes stage asks about is an Atlas Search index name in a
+		// top-level stage like the others
+		{"AggregationOperators", "$listSearchIndexes", "name"},
 	})
 	nExempt := 0
 	for _, s := range p.sinks(p.Zone) {
